@@ -65,6 +65,9 @@ type hScenario struct {
 	Depth int
 	Caps  []int
 	Junks [][]byte // nil = default junks
+	// SkipObjectCheck: do not compare the message objects with the model after each op (C06 judges only the bytes:
+	// "the same message object encoded again yields the same bytes", whatever the first encode did to the object)
+	SkipObjectCheck bool
 }
 
 func (sc *hScenario) junk(i int) []byte {
@@ -159,6 +162,9 @@ func runHistory(sc *hScenario, capClass int, seq []hOp) (f *hFinding, steps int,
 			return &hFinding{Kind: "buffer-changed", Role: "prior", Where: op.String(), Detail: fmt.Sprintf("after %s the unread buffer is %s, model says %s", op, hx(st.buf.Bytes()), hx(st.unread))}, steps, 0
 		}
 		for i, m := range st.msgs {
+			if sc.SkipObjectCheck {
+				break
+			}
 			got := bind.MustFrom(st.mvals[i].Type, m)
 			if d := rm.Diff(st.mvals[i], got, ""); d != "" {
 				role := fieldRole(st.mvals[i].Type, d)
@@ -402,7 +408,7 @@ func histViolation(prop string, sc *hScenario, f *hFinding, capClass int, seq []
 func init() {
 	replayers["history"] = func(prop string, rp map[string]any) *ev.Violation {
 		t := bind.TypeByQName(rp["type"].(string))
-		sc := &hScenario{Name: "replay", T: t}
+		sc := &hScenario{Name: "replay", T: t, SkipObjectCheck: prop == "C06"}
 		for _, m := range rp["msgs"].([]any) {
 			v, err := rm.FromJSON(m, bind.TypeByQName)
 			if err != nil {
